@@ -55,8 +55,16 @@ class Depth:
             sys.setprofile(None)
 
 
-def chain_ops(shape, fail, n):
-    """Deferreds 0..n; Deferred i's callback (errback when failing) returns Deferred i+1"""
+CLS = ["plain", "sub", "mixed"]
+
+
+def cls_pattern(kind, nd):
+    return None if kind == "plain" else [1] * nd if kind == "sub" else [i % 2 for i in range(nd)]
+
+
+def chain_ops(shape, fail, n, cls="plain"):
+    """Deferreds 0..n; Deferred i's callback (errback when failing) returns Deferred i+1;
+    cls: all plain Deferreds / all instances of a trivial subclass / alternating"""
     link = (lambda i: ["add", i, None, ["ret", ["D", i + 1]]]) if fail else (lambda i: ["add", i, ["ret", ["D", i + 1]], None])
     fire = (lambda i: ["eb", i, 1]) if fail else (lambda i: ["cb", i, 1])
     ops = [link(i) for i in range(n)]
@@ -68,14 +76,14 @@ def chain_ops(shape, fail, n):
         ops += [fire(n)] + [fire(i) for i in reversed(range(n))]
     else:
         ops += [fire(i) for i in range(n)] + [["pause", n], fire(n), ["unpause", n]]
-    return {"canc": [["none"]] * (n + 1), "ops": ops}
+    return {"canc": [["none"]] * (n + 1), "ops": ops, "cls": cls_pattern(cls, n + 1)}
 
 
 def run_measured(program, light=False):
     """-> (list of per-operation depths, final state string)"""
     K.quiet_logging()
     meter = Depth()
-    r = K.Runner(program["canc"])
+    r = K.Runner(program["canc"], program.get("cls"))
     depths = []
     run = r.op_light if light else r.op
     for o in program["ops"]:
@@ -108,7 +116,7 @@ def _impl(case) -> str:
         return " ".join(map(str, depths)) + " | " + final
     if kind == "chain":
         n, fail = case["n"], case["fail"]
-        depths, final, r = run_measured(chain_ops(case["shape"], fail, n), light=True)
+        depths, final, r = run_measured(chain_ops(case["shape"], fail, n, case.get("cls", "plain")), light=True)
         states = final.split(" ")
         want0 = "T:E1:0:[]" if fail else "T:1:0:[]"
         rest_ok = all(s == "T:N:0:[]" for s in states[1:])
@@ -269,7 +277,7 @@ _BASE: dict = {}
 
 
 def _baseline(case) -> str:
-    key = (case["kind"], case.get("shape"), case.get("style"), case["fail"], case.get("lazy"),
+    key = (case["kind"], case.get("shape"), case.get("cls"), case.get("style"), case["fail"], case.get("lazy"),
            __import__("os").environ.get("VERIF_REPO", ""))
     if key not in _BASE:
         _BASE[key] = impl({**case, "n": 10})
@@ -278,7 +286,8 @@ def _baseline(case) -> str:
 
 def _shape(case):
     if case["kind"] == "chain":
-        return f"chain-{case['shape']}-{'failure' if case['fail'] else 'success'}"
+        return f"chain-{case['shape']}-{'failure' if case['fail'] else 'success'}" + (
+            "" if case.get("cls", "plain") == "plain" else "-" + case["cls"] + "class")
     if case["kind"] == "inline":
         return f"inline-{case['style']}-{'failure' if case['fail'] else 'success'}" + (
             "-after-first-suspension" if case["lazy"] == "first" else "-some-unfired" if case["lazy"] else "")
@@ -372,11 +381,18 @@ def gen(rng, tier):
             for n in small:
                 cases.append({"kind": "program", "shape": shape, "fail": fail, "n": n,
                               "program": chain_ops(shape, fail, n)})
+                if n % 2 or tier != "quick":
+                    for cls in ("sub", "mixed"):
+                        cases.append({"kind": "program", "shape": shape, "fail": fail, "n": n, "cls": cls,
+                                      "program": chain_ops(shape, fail, n, cls)})
             big = [100, 1000, 10000]
             if tier != "quick":
                 big.append(100000)
             for n in big:
                 cases.append({"kind": "chain", "shape": shape, "fail": fail, "n": n})
+            for cls in ("sub", "mixed"):                    # chains of Deferred-subclass instances, >= 3000 links
+                for n in ([3000] if tier == "quick" else [3000, 30000]):
+                    cases.append({"kind": "chain", "shape": shape, "fail": fail, "n": n, "cls": cls})
     for style in ("gen", "coro"):
         for fail in (False, True):
             for lazy in (0, 7, "first"):
@@ -393,8 +409,10 @@ def gen(rng, tier):
         cases.append(rand_iprog(rng))
     # random cancel-free programs without user pauses (independent of finding F1), per-operation depths
     for _ in range(400 if tier == "quick" else 6000):
-        cases.append({"kind": "program", "program": K.rand_program(rng, rng.randrange(1, 7), rng.randrange(2, 21),
-                                                                   weights=W, cancellers=False)})
+        p = K.rand_program(rng, rng.randrange(1, 7), rng.randrange(2, 21), weights=W, cancellers=False)
+        if rng.random() < 0.4:
+            p["cls"] = K.rand_cls(rng, len(p["canc"]))
+        cases.append({"kind": "program", "program": p})
     # programs with pauses placed only on Deferreds that never wait on another one
     for _ in range(200 if tier == "quick" else 3000):
         nd = rng.randrange(2, 6)
@@ -418,6 +436,8 @@ def corpus():
     return [
         {"kind": "program", "shape": "outer", "fail": False, "n": 4, "program": chain_ops("outer", False, 4)},
         {"kind": "chain", "shape": "outer", "fail": True, "n": 2000},
+        {"kind": "chain", "shape": "outer", "fail": False, "n": 3000, "cls": "sub"},        # seeded C02-D scenario
+        {"kind": "chain", "shape": "inner", "fail": True, "n": 3000, "cls": "mixed"},
         {"kind": "chain", "shape": "paused-inner", "fail": False, "n": 2000},
         {"kind": "inline", "style": "gen", "fail": False, "lazy": 0, "n": 2000},
         {"kind": "inline", "style": "coro", "fail": True, "lazy": 0, "n": 2000},
@@ -433,7 +453,7 @@ def shrink(case):
         ops = case["program"]["ops"]
         if not case.get("shape"):
             for i in range(len(ops)):
-                yield {"kind": "program", "program": {"canc": case["program"]["canc"], "ops": ops[:i] + ops[i + 1:]}}
+                yield {"kind": "program", "program": {**case["program"], "ops": ops[:i] + ops[i + 1:]}}
     elif case["kind"] == "iprog":
         aw, ops = case["awaits"], case["ops"]
         for i in range(len(ops)):
@@ -472,7 +492,7 @@ SPEC = Spec(
     histogram=histogram, describe=describe,
     case_timeout=120.0,
     rule="4 chain shapes (outer fired first, inner fired first, innermost pre-fired, innermost paused by the user) x "
-         "{success, failure}: as kernel programs for 9 lengths <= 34 (quick) / 43 lengths <= 90 (thorough) with the "
+         "{success, failure} x {plain Deferreds, instances of a trivial Deferred subclass, alternating}: as kernel programs for 9 lengths <= 34 (quick) / 43 lengths <= 90 (thorough) with the "
          "frame depth of every operation compared with the model, and with 100 ... 10 000 (thorough 100 000) Deferreds "
          "against the 10-element baseline; inlineCallbacks generators and coroutines awaiting 30 ... 20 000 (100 000) "
          "Deferreds, all pre-fired, every 7th fired later, or only the first one unfired (re-entry after a real suspension), last "
